@@ -1,7 +1,7 @@
 //@target src/decoder/plane/from_squitter.rs
 //@props C05,C06,C07,C08,C09,C10,C11,C12,C19
 //@needs L2_row
-//@assume composition (update path): Plane::update = clock + last_df + update_from_bcast + (update_from_ext iff DF17/18) + (update_from_mode_s iff gate); update_from_ext = last_type_code + exactly one per-type-code arm. Each dispatcher is verified with its callees replaced by ghost recorders (called with these arguments, exactly once, nothing else touched) and each callee is verified on its own; the whole-step obligations L2.step.* (thorough tier) re-check the composition without stand-ins.
+//@assume composition (update path): Plane::update = clock + last_df + update_from_bcast + (update_from_ext iff DF17/18) + (update_from_mode_s iff gate); update_from_ext = last_type_code + exactly one per-type-code arm. Each dispatcher is verified with its callees replaced by ghost recorders (called with these arguments, exactly once, nothing else touched) and each callee is verified on its own; end-to-end whole-step obligations on the un-cut code were written and dropped (they exhaust 28 GB in CBMC), so the composition rests on this argument.
 
 #[cfg(kani)]
 mod verif_l2_update {
